@@ -145,8 +145,12 @@ def run_case(case, tier):
             classes.append("multi-conformation")
         grid = random_grid(rng)
     window = random_window(rng, grid)
-    opts = ["-g"] + [repr(v) for v in grid] + ["-w"] + [repr(v) for v in window] + util.neutral_options(
-        rng, families=("display", "protonation", "keep", "swap-display"), classes=classes)
+    parts = [["-g"] + [repr(v) for v in grid], ["-w"] + [repr(v) for v in window],
+             util.neutral_options(rng, families=("display", "protonation", "keep", "swap-display"), classes=classes)]
+    rng.shuffle(parts)                  # the order of options on the command line carries no meaning
+    opts = [x for part in parts for x in part]
+    if opts.index("-w") < opts.index("-g"):
+        classes.append("window-before-grid")
     text = pdbio.dump(recs)
     run = obs.run_single(text, opts, keep_mol=True)
     counts["pipeline_runs"] = 1
